@@ -150,6 +150,14 @@ def run (args : List String) : String :=
         | _ => "send=ctx wire=0 send2=err"
       | _ => "bad-op"
     | none => "bad-op"
+  | ["cancel-mid-send", n, k] | ["cancel-mid-send", n, k, _] =>
+    match n.toNat?, k.toNat? with
+    | some n, some k =>
+      -- the message of n bytes occupies ⌈n/504⌉ packets; the context is cancelled during write k
+      let total := (n + 503) / 504
+      if 1 ≤ k ∧ k < total then s!"send=ctx packets={sendCtx sendChecksCtxPerPacket total k}"
+      else s!"send=ok packets={total}"
+    | _, _ => "bad-op"
   | ["closed-ops", _] =>
     "close=ok next=closed until=closed queue=closed flush=closed send=closed late=closed written=0"
   | ["double-close", _] => if closeChecksClosedFirst then "close=ok close2=closed" else "close=ok panic"
